@@ -151,6 +151,19 @@ def command_table():
 ANSWERS = {"q": 0x40, "dtq": 0x60, "emq": 0x20, "dev": 0x10}      # + caller id; "qn" = no answer
 
 
+KNOWN_EXC = ("UnsupportedFrameTypeError", "CommunicationError", "TimeoutError", "OSError", "SeqBoom",
+             "AssertionError")
+
+
+def canonical_exc(e):
+    """the documented exception class an exception IS (first known name along its MRO: a maintainer may raise a
+    more specific subclass), else its own name"""
+    for k in type(e).__mro__:
+        if k.__name__ in KNOWN_EXC:
+            return k.__name__
+    return type(e).__name__
+
+
 class Caller:
     """spec = ("send", name, {exc: bool|None}) | ("seq", [item...], {boom: k}) with
     item = command name | ("sleep", seconds) | "progress"."""
@@ -402,7 +415,7 @@ class Sim:
                 self.spin = True
                 self.rec(c.tid, "spin")
                 return
-            c.result = ("err", type(e).__name__)
+            c.result = ("err", canonical_exc(e))
         c.done = True
         c.t_done = self.loop.time()
         self.rec(c.tid, "done", c.result[0], c.result[1])
